@@ -564,7 +564,8 @@ var errInjected = errors.New("injected fault")
 type tickState struct {
 	mu     sync.Mutex
 	calls  int
-	failAt int // 1-based; 0 = never
+	failAt int  // 1-based; 0 = never
+	panics bool // the failing call panics instead of returning an error
 }
 
 func (ts *tickState) tick() (string, error) {
@@ -572,6 +573,9 @@ func (ts *tickState) tick() (string, error) {
 	defer ts.mu.Unlock()
 	ts.calls++
 	if ts.failAt > 0 && ts.calls == ts.failAt {
+		if ts.panics {
+			panic("tick: caller-supplied function panics")
+		}
 		return "", errInjected
 	}
 	return fmt.Sprintf("<t%d>", ts.calls), nil
